@@ -16,6 +16,7 @@ func dispatch(kind string, args []*Sexp) (out *Sexp) {
 			out.List[1].Atom = strings.ReplaceAll(out.List[1].Atom, ")", "_")
 		}
 	}()
+	resetIdentities()
 	switch kind {
 	case "toobj", "toobjalt", "toiface", "rtobj", "rtobjalt", "rtgo":
 		return runC20(kind, args)
